@@ -84,12 +84,13 @@ var specs = map[string]Spec{
 		MaxSamples:  2,
 	},
 	"C02": {
+		ExtraEngine: "wire", ExtraRun: "^TestRoutingWire$", ExtraRace: true, ExtraShards: 8,
 		Engine: "routesim", Run: "^TestRoute$", Race: true,
 		QuickShards: 16, ThoroughShards: 16, QuickWatchdog: 8 * time.Minute, ThoroughWatchdog: 60 * time.Minute,
 		MaxProcs: []int{16, 4, 2, 1},
 		Level:     "exploration",
 		LevelText: "Same executions as C01 with the delivery oracle: every task marker handed over by a source must appear exactly once, on the stream of the shard that owns its workflow (harness-side farm32), payload equal after restoring the two id fields, in source order per (source,target); per target stream ids and watermarks must satisfy what Temporal's task tracker requires (a tracker model in the fake target additionally reports every message or task it would drop); at quiescence of fair scenarios every task must have been delivered.",
-		LevelNote: "Trusted: fake peers, stream model, the harness's own owner computation (farm.Fingerprint32 of namespaceID_workflowID mod n + 1). Tasks without RawTaskInfo are outside the domain (the 1.31 sender always fills it).",
+		LevelNote: "An extra pass (wire engine) runs routing mode through the assembled ClusterConnection over real gRPC with nL != nR: it shows which routing parameters each direction was given (owner computed under the right cluster's shard count, peer shard count reported by DescribeCluster) and cross-checks the in-memory stream model. Trusted: fake peers, stream model, the harness's own owner computation (farm.Fingerprint32 of namespaceID_workflowID mod n + 1). Tasks without RawTaskInfo are outside the domain (the 1.31 sender always fills it).",
 		Technique: "runtime monitor: exactly-once / ownership / ordering / well-formedness oracle over recorded boundary events + Temporal task-tracker reference model at the fake target",
 		DesignRef: "DESIGN.md §4 C02",
 		Rule:      "as C01; non-trivial = at least one task delivered; distinct = distinct interleaving signatures",
@@ -302,18 +303,19 @@ var specs = map[string]Spec{
 		MaxSamples:  2,
 	},
 	"C09": {
+		ExtraEngine: "wire", ExtraRun: "^TestClusterRouting$", ExtraRace: true, ExtraShards: 3,
 		Engine: "gossip", Run: "^TestConvergence$", Race: true,
 		RaceViolation: regexp.MustCompile(`shardManagerImpl\)|shardDelegate\)|shardEventDelegate\)`),
 		QuickShards: 16, ThoroughShards: 16, QuickWatchdog: 10 * time.Minute, ThoroughWatchdog: 60 * time.Minute,
 		Level:     "exploration",
 		LevelText: "Two to three real shard managers are started with their own (isolated) memberlist so that the real delegates and callbacks are installed; the harness is the gossip network: for every subset and time order of competing claims on 1-2 shards it delivers the ownership announcements (built as broadcastShardChange builds them) to every other instance in every permutation, with a duplicate, a full-state merge (LocalState -> MergeRemoteState) and a node-leave inserted, and finally with and without a closing push/pull round. Afterwards each shard must be owned by exactly the instance with the newest live claim, every instance's view of its peers must list the shard only under that owner (after the closing round), and an instance that left must own nothing in any peer's view. The routing clause is probed on the same instances: local stream => delivered locally exactly once; nobody => reported undelivered; local stream closing => reported undelivered; known but unreachable remote owner => reported undelivered and nothing arrives.",
-		LevelNote: "Permutations of deliveries are exhaustive for the listed families (2 instances/1 shard, 3 instances/1 shard, 2 instances/2 shards, up to 7 deliveries); timing between real goroutines is not involved (the delegates are called synchronously by the harness). Forwarding to a reachable remote owner over the intra-proxy stream needs assembled proxies and is covered by the cluster part of the wire engine.",
+		LevelNote: "Permutations of deliveries are exhaustive for the listed families (2 instances/1 shard, 3 instances/1 shard, 2 instances/2 shards, up to 7 deliveries); timing between real goroutines is not involved (the delegates are called synchronously by the harness). Forwarding to a reachable remote owner is observed by an extra pass of the wire engine: two assembled proxy instances really joined by memberlist on loopback, each holding half of the shards' streams, both clusters fake; every task whose owner shard lives on the other instance must arrive exactly once on the right shard (routesim recorder) and every source must be acknowledged to its final watermark; the evidence counts messages and acks that crossed between the instances.",
 		Technique: "runtime monitor: harness-as-network permutation of real delegate callbacks on real shard managers; convergence and view oracles; routing-result probes",
 		DesignRef: "DESIGN.md §4 C09",
 		Rule:      "cases = blocks of 200 scenarios (claim order x delivery permutation x {plain, duplicate, merge, leave position}) each run with and without a final sync; distinct = (family, shape, length) classes",
 		Exhaustive: "all delivery permutations of the listed claim families",
 		Assumptions: []string{"announcements are delivered at least once to every other live instance (memberlist reliable send)", "registration times are distinct (2 µs apart)"},
-		QuickFloors: map[string]int64{"scenarios": 2000, "routing_probes": 30},
+		QuickFloors: map[string]int64{"scenarios": 2000, "routing_probes": 30, "cluster_runs_completed": 1, "messages_forwarded_between_instances": 5},
 		MaxSamples:  2,
 	},
 	"C15": {
@@ -333,7 +335,7 @@ var specs = map[string]Spec{
 	"C11": {
 		Engine: "wire", Run: "^TestMuxRPC$", Race: true,
 		RaceViolation: regexp.MustCompile(`MultiClientConn\)|multiMuxManager\)`),
-		QuickShards: 12, ThoroughShards: 16, QuickWatchdog: 10 * time.Minute, ThoroughWatchdog: 90 * time.Minute,
+		QuickShards: 16, ThoroughShards: 16, QuickWatchdog: 10 * time.Minute, ThoroughWatchdog: 90 * time.Minute,
 		Level:     "exploration",
 		LevelText: "The real MultiClientConn is driven by the real GRPCMuxManager (receiver role) over loopback TCP + yamux. Harness peers connect, serve a tagged gRPC server on their session and die on a seeded script (add, kill, flap = die right after establishment, kill all, replace = kill and add at once) while three client goroutines issue RPCs continuously. After every update, at a quiescent point reached by polling state (not by sleeping), the set of registered sessions must equal the number of live peer sessions, the endpoint keys the client connection may dial (MultiClientConn.Describe) must equal the registered keys, and CanMakeCalls must equal 'set non-empty'; a fresh RPC must then succeed if a session is alive and fail with Unavailable/DeadlineExceeded if none is; over the whole history every successful RPC must have been served by a peer whose session was alive during the call.",
 		LevelNote: "Real time and sockets. A state that is still wrong after the live-peer set has been stable for 8 s is a violation by state (stale set); transport hiccups shorter than that are tolerated by polling. gRPC's own balancer is in the loop (round robin over the resolver's endpoints).",
